@@ -47,7 +47,7 @@ def first_tree(draw, **kw):
     sh1 = draw(tree_shapes(**kw))
     t1 = {"": ("d", 1000, 1, 0, 0)}
     taken = {(1000, 1)}
-    nxt = [1]
+    nxt = [0]  # inode numbers start at 0 (falsy, and reported by some file systems)
     for p in sorted(sh1):
         ident = fresh_ident(draw, nxt, taken)
         taken.add(ident)
